@@ -73,6 +73,10 @@ var zzC02Templates = []string{
 	"GET /a HTTP/1.1\r\nHost: h\r\nX-B: 1\r\n\r\n" + zzSentinel,
 	// 3: header area with two structural wildcards (filled in below)
 	"GET /w HTTP/1.1\r\nHost: h\r\nX-W: a??b\r\nX-C: c\r\n\r\n" + zzSentinel,
+	// 4: empty lines before the request line (RFC 7230 3.5 robustness), then a pipelined request
+	"\r\n\r\nGET /l HTTP/1.1\r\nHost: h\r\n\r\n" + zzSentinel,
+	// 5: chunk sizes of two hex digits, no trailer, then a pipelined request
+	"POST /d HTTP/1.1\r\nHost: h\r\nTransfer-Encoding: chunked\r\n\r\n1a\r\nabcdefghijklmnopqrstuvwxyz\r\n10\r\n0123456789ABCDEF\r\n0\r\n\r\n" + zzSentinel,
 }
 
 // ZZ_C02_H1: the same byte stream delivered whole and delivered cut at a split point (every
